@@ -12,9 +12,9 @@ cd "$W"
 if ! git apply "$SRC/patch.diff"; then echo "RESULT $NAME patch-does-not-apply"; exit 3; fi
 suite=$(/venv/bin/python -m pytest -q -p no:cacheprovider test 2>&1 | tail -1)
 FLOWCAL_ROOT="$W" MPLBACKEND=Agg timeout 900 /venv/bin/python "$SRC/demo.py" > /tmp/w/demo_with.txt 2>&1; rc_with=$?
-git stash -q
+git apply -R "$SRC/patch.diff"
 FLOWCAL_ROOT="$W" MPLBACKEND=Agg timeout 900 /venv/bin/python "$SRC/demo.py" > /tmp/w/demo_without.txt 2>&1; rc_without=$?
-git stash pop -q
+git apply "$SRC/patch.diff"
 cd /verif
 out=$(RV_REPO="$W" RV_NO_EVIDENCE=1 ./check "$P" --tier "$TIER" 2>&1); rc=$?
 mech=$(echo "$out" | grep "observed mechanism" | grep -v "known:" | sed 's/.*observed mechanism //' | tr '\n' ';' | cut -c1-300)
